@@ -7,8 +7,9 @@ from .. import coq
 
 LITS = ["projects", "instances", "tables", "locations", "a", "v1", "x-y", "k_s", "regions", "zones", "t~1", "c:d", "e@f", "p%q",
         "items", "b2", "UPPER", "m,n", "o;p", "q!r", "s't", "u&v"]
-DOT_LITS = ["v1.2", "a.b", "example.com", "x.", ".y"]          # unescaped by the generator: the dot is a wildcard
-META_LITS = ["c+d", "e(f)", "g[h]", "q?", "r|s", "t^u", "w$", "b\\d", "x{2"]   # outside the modelled regex class
+DOT_LITS = ["v1.2", "a.b", "example.com", "x.", ".y"]          # escaped by the generator (re.escape): matched literally
+META_LITS = ["c+d", "e(f)", "g[h]", "q?", "r|s", "t^u", "w$", "b\\d", "x y", "m#n", "o&p", "a-b~c"]
+BAD_LITS = ["a=b", "x{2", "y}", "=", "k=v=w"]                   # not literal text of the class: '=' or a brace
 KEYS = ["project_id", "table_name", "routing_id", "k", "name", "instance_id", "location", "x1", "_u", "table_location", "app_profile_id"]
 SEGCHARS = string.ascii_letters + string.digits + "-_.~"
 ODDCHARS = " %?&=+#:@,;!$'()*[]{}\"\\|^<>`\t"
@@ -39,7 +40,8 @@ def gen_segs(r, n, allow_dstar_last, lits=LITS):
 
 def gen_class_template(r, allow_short=True):
     """A template of the AIP class (structured, then printed)."""
-    lits = LITS if r.random() < 0.85 else LITS + ["", ""]
+    x = r.random()
+    lits = LITS if x < 0.6 else LITS + ["", ""] if x < 0.7 else LITS + DOT_LITS + META_LITS
     npre, nsub, npost = r.choice([0, 0, 1, 1, 2, 3]), r.choice([1, 1, 1, 2, 2, 3, 4]), r.choice([0, 0, 1, 1, 2, 3])
     pre = gen_segs(r, npre, False, lits)
     post = gen_segs(r, npost, True, lits)
@@ -65,10 +67,10 @@ def gen_offclass_template(r):
         if r.random() < 0.5:
             segs.append(r.choice(LITS))
         return "/".join(segs)
-    if k == 1:     # dotted literal
-        return r.choice(DOT_LITS) + "/" + t if r.random() < 0.5 else t.replace("}", "/" + r.choice(DOT_LITS) + "}", 1) if "=" in t else t + "/" + r.choice(DOT_LITS)
-    if k == 2:     # metacharacter literal
-        return r.choice(META_LITS) + "/" + t
+    if k == 1:     # literal with '=' or a brace inside the named segment or after it
+        return t.replace("}", "/" + r.choice(BAD_LITS) + "}", 1) if "=" in t else t + "/" + r.choice(BAD_LITS)
+    if k == 2:     # ... or before it
+        return r.choice(BAD_LITS) + "/" + t
     if k == 3:     # no named segment
         return "/".join(gen_segs(r, r.randint(1, 4), True))
     if k == 4:     # two named segments
@@ -84,7 +86,7 @@ def gen_offclass_template(r):
 
 # ------------------------------------------------------------------ the independent reference
 def lit_char_ok(c):
-    return c not in ".^$*+?{}[]\\|()/="
+    return c not in "/*{}="
 
 
 def is_ident(k):
@@ -119,7 +121,7 @@ def seg_kind(s):
 
 
 def in_class(tm):
-    """The AIP class of the theorem: literal text free of slash, star, braces, '=', regex metacharacters; identifier key;
+    """The AIP class of the theorem: literal text free of slash, star, braces and '='; identifier key;
     '**' at most as the very last segment of the whole template."""
     if tm is None or not is_ident(tm["key"]) or not tm["sub"]:
         return False
@@ -141,9 +143,7 @@ def why_off_class(tm):
         return "key"
     if any(s == "**" for s in allsegs[:-1]):
         return "inner-dstar"
-    if any("." in s for s in lits) and all(all(lit_char_ok(c) or c == "." for c in s) for s in lits):
-        return "dotted-literal"
-    return "metachar-literal"
+    return "literal"
 
 
 def aip_match(tm, value):
